@@ -39,6 +39,10 @@ pub struct Transfer {
     /// block size (a client that changed its mind)
     #[serde(default)]
     pub reask_first: bool,
+    /// downloads: body length, when it is not derived from the number of
+    /// exchanges (transfers of one length with different block sizes)
+    #[serde(default)]
+    pub body_override: Option<u16>,
 }
 
 #[derive(Clone, Debug, PartialEq, Eq, Hash, Serialize, Deserialize)]
@@ -53,6 +57,9 @@ impl Transfer {
         16usize << self.szx
     }
     fn body_len(&self) -> usize {
+        if let (false, Some(n)) = (self.upload, self.body_override) {
+            return n as usize;
+        }
         let n = self.exchanges.max(1) as usize;
         let mut size = self.size();
         if !self.upload && !self.early && self.budget > 0 {
@@ -321,6 +328,7 @@ fn transfer(upload: bool) -> BoxedStrategy<Transfer> {
             query: vec![],
             budget: 0,
             reask_first: false,
+            body_override: None,
             upload,
             endpoint: 1,
             method: if upload { [2u8, 3, 5, 6, 7][(seed % 5) as usize] } else { [1u8, 5, 1, 1, 2][(seed % 5) as usize] },
@@ -483,6 +491,20 @@ fn script_set(three: bool) -> BoxedStrategy<ScriptSet> {
             for (i, t) in ts.iter_mut().enumerate() {
                 t.budget = if label.contains("long") { budget + 300 } else { budget };
                 t.reask_first = !t.upload && (how2 as usize + i) % 4 == 0;
+            }
+            if budget % 5 == 0 && !ts[0].upload && !ts[1].upload {
+                // two downloads of one length, token length and option set that
+                // ask for different block sizes in their first request
+                let szx0 = ts[0].szx.min(3);
+                let tl = ts[0].token_len;
+                for (i, t) in ts.iter_mut().enumerate().take(2) {
+                    t.body_override = Some(200);
+                    t.early = true;
+                    t.vary_token_len = false;
+                    t.token_len = tl;
+                    t.szx = szx0 + 2 * i as u8;
+                    t.reask_first = false;
+                }
             }
             // uploads and downloads may use any method code
             ScriptSet { budget: if label.contains("long") { budget + 300 } else { budget }, transfers: ts, differ_in: label }
